@@ -626,7 +626,7 @@ def _filter_chain(ctx: Ctx, fn: FuncInfo, fc, ta, at: int, depth: int):
     yield (f'filtered_context = {src(fc)}', False, f'`{src(fc)}` is not derived from task.filter_context(context)', fc, fn)
 
 
-@rule('SERIAL-ONE', ['C04', 'C16', 'C05'])
+@rule('SERIAL-ONE', ['C04', 'C16', 'C05', 'C14', 'C11'])
 def serial_one(ctx: Ctx):
     """SerialRunner.wait runs at most one task per invocation (the oldest submission, unconditionally),
     in the caller's thread: no process/thread creation in serial.py or base.py."""
@@ -665,7 +665,7 @@ def serial_one(ctx: Ctx):
                  '' if cl else 'SerialRunner.cancel leaves queued submissions: tasks start after an interrupt', construct='serial-cancel')
 
 
-@rule('C03.LOAD-XOR-EXEC', ['C03', 'C06', 'C01'])
+@rule('C03.LOAD-XOR-EXEC', ['C03', 'C06', 'C01', 'C08', 'C10'])
 def load_xor_exec(ctx: Ctx):
     """run_or_load_task: with use_cache one load and no run/save; otherwise exactly one run() followed
     by exactly one save(storage, task, <the returned TaskResult>) on every normal path."""
